@@ -196,7 +196,8 @@ def oer_shapes_module(rng, quick=True):
     add("OQset", T("SET OF", elem=T("INTEGER", cons=None), size=None), [[], [5], [1, 2, 3], [0, 0], [-1, -1, -1]])
     add("OQn", T("SEQUENCE OF", elem=T("NULL"), size=None), [[None] * n for n in (0, 1, 200)])
     # REAL, OID, time
-    add("OR", T("REAL"), [0, 0x8000000000000000, 0x7ff0000000000000, 0xfff0000000000000, 0x3ff0000000000000, 0xbff8000000000000, 0x7fefffffffffffff, 0x3fb999999999999a])
+    add("OR", T("REAL"), [0, 0x8000000000000000, 0x7ff0000000000000, 0xfff0000000000000, 0x3ff0000000000000, 0xbff8000000000000, 0x7fefffffffffffff, 0x3fb999999999999a,
+                        0x0000000000000003, 0x800fffffffffffff, 0x3ff0200000000000])   # subnormals, shift-by-5 mantissa (F1/F31 repaired)
     add("OOid", T("OBJECT IDENTIFIER"), [[1, 2], [2, 999, 3], [0, 39, 16383, 16384], [1, 2] + [4294967295] * 30])
     add("ORoid", T("RELATIVE-OID"), [[0], [127, 128], [4294967295] * 26])
     add("OUt", T("UTCTime"), ["991231235959Z"]); add("OGt", T("GeneralizedTime"), ["20240229120000Z", "19000101000000.5Z"])
